@@ -11,7 +11,7 @@ CONSTANTS
   QTypes <- T3_QTypes
   MaxProof = 3
   HT <- Q3_HT
-  Params = {[id |-> "p1", iter |-> 1]}
+  Params <- T3_Params
   StaleParams = {}
   OptOuts = {FALSE, TRUE}
   ParentZone <- NoParent
